@@ -343,10 +343,10 @@ type Op struct {
 	Audit       bool        `json:"audit,omitempty"`       // Owner hooks write an audit row through their handle
 	Ptrs        bool        `json:"ptrs,omitempty"`        // slice of pointers instead of values
 	Batch       int         `json:"batch,omitempty"`
-	Form        string      `json:"form,omitempty"`   // delete/update: struct | slice | where
-	Select      []string    `json:"select,omitempty"` // delete: Select(...)
+	Form        string      `json:"form,omitempty"`     // delete/update: struct | slice | where
+	Select      []string    `json:"select,omitempty"`   // delete: Select(...)
 	Unscoped    bool        `json:"unscoped,omitempty"` // delete: Unscoped() (hard delete of soft-deletable children)
-	IDs         []uint      `json:"ids,omitempty"`    // targeted existing owners (update-col, delete)
+	IDs         []uint      `json:"ids,omitempty"`      // targeted existing owners (update-col, delete)
 	NewName     string      `json:"newname,omitempty"`
 	NewVal      int         `json:"newval,omitempty"`
 	Owners      []OwnerSpec `json:"owners,omitempty"`
@@ -556,9 +556,11 @@ func readContent(sqlDB *sql.DB) (*content, error) {
 var initNow = testdb.FixedNow
 var opNow = testdb.FixedNow.Add(90 * time.Minute)
 
-// materialize builds the initial content through gorm (hooks inert) on a
-// scratch database and reads it back.
-func materialize(in InitSpec) *content {
+// materialize builds the initial content through gorm (hooks inert, no faults)
+// on a scratch database and reads it back. An error of one of these plain
+// fault-free Creates is returned to the caller (it is a failure of the code
+// under test, not of the harness).
+func materialize(in InitSpec) (*content, error) {
 	plan = nil
 	d := testdb.Open(testdb.Options{Config: gorm.Config{NowFunc: func() time.Time { return initNow }}})
 	defer d.Close()
@@ -571,24 +573,25 @@ func materialize(in InitSpec) *content {
 			co.Region = &Region{Name: c.Region.Name}
 		}
 		if err := d.Create(co).Error; err != nil {
-			panic("harness: initial content: " + err.Error())
+			return nil, fmt.Errorf("Create(&Company{Name: %q, Region: %v}): %w", c.Name, c.Region != nil, err)
 		}
 	}
 	for _, tg := range in.Tags {
 		if err := d.Create(&Tag{Name: tg.Name}).Error; err != nil {
-			panic("harness: initial content: " + err.Error())
+			return nil, fmt.Errorf("Create(&Tag{Name: %q}): %w", tg.Name, err)
 		}
 	}
 	for _, o := range in.Owners {
 		if err := d.Create(o.build()).Error; err != nil {
-			panic("harness: initial content: " + err.Error())
+			b, _ := json.Marshal(o)
+			return nil, fmt.Errorf("Create(owner graph %s): %w", b, err)
 		}
 	}
 	c, err := readContent(d.SQL)
 	if err != nil {
 		panic("harness: " + err.Error())
 	}
-	return c
+	return c, nil
 }
 
 // freshDB opens a new database holding exactly the initial content.
@@ -1067,7 +1070,11 @@ func drawCase(t *rapid.T) (Case, *content) {
 		minOwners = 1
 	}
 	in := drawInit(t, minOwners)
-	base := materialize(in)
+	base, err := materialize(in)
+	if err != nil {
+		b, _ := json.Marshal(in)
+		t.Fatalf("C05 violated: a fault-free Create failed while the initial content was built: %v\n  initial content: %s", err, b)
+	}
 	ids := newIDSources(base)
 	op := Op{Kind: kind}
 	op.NoReturning = rapid.IntRange(0, 3).Draw(t, "no-returning") == 0
@@ -1191,6 +1198,10 @@ func saveFallbackWrites(c Case, base *content) bool {
 func TestC05WitnessSaveFallback(t *testing.T) {
 	for _, noRet := range []bool{false, true} {
 		c := Case{Op: Op{Kind: kSave, NoReturning: noRet, Owners: []OwnerSpec{{ID: 900, Name: "ow-a", Val: 2, Profile: &ProfileSpec{Bio: "bio-b"}}}}}
-		checkCase(t, c, materialize(c.Init))
+		base, err := materialize(c.Init)
+		if err != nil {
+			t.Fatalf("harness: %v", err)
+		}
+		checkCase(t, c, base)
 	}
 }
